@@ -3,7 +3,7 @@
    All statements quantify over EVERY reachable state of the life-cycle LTS Srv/Conc.v: any number of requests,
    any interleaving of the receive, worker, responder and send steps, any behaviour of the implementation. *)
 From Coq Require Import NArith List Bool PeanoNat.
-From V9 Require Shape.ShapeLib Shape.Params.
+From V9 Require Shape.ShapeLib Shape.POrder.
 From V9 Require Import Lib.GoSem Gen.Consts Srv.Conc Srv.ConcProofs.
 Import ListNotations.
 
@@ -68,5 +68,5 @@ Print Assumptions C07_flush_answered_once_counterexample.
 (* ---- structural parameters read off the CURRENT source (Gen/Shape.v) ---- *)
 Theorem C07_source_structure :
   ShapeLib.respond_order = true /\ ShapeLib.recv_resets_reply_type = true /\ ShapeLib.cancelled_not_executed = true.
-Proof. split; [exact Params.respond_order_ok | split; [exact Params.recv_resets_reply_type_ok | exact Params.cancelled_not_executed_ok]]. Qed.
+Proof. split; [exact POrder.respond_order_ok | split; [exact POrder.recv_resets_reply_type_ok | exact POrder.cancelled_not_executed_ok]]. Qed.
 Print Assumptions C07_source_structure.
